@@ -10,12 +10,23 @@ j = j[0] if j else 2
 names = sorted(os.listdir(os.path.join(VERIF, 'seeded')))
 if args and args[0] == 'undetected':
     names = [n for n in names if not json.load(open(os.path.join(VERIF, 'seeded', n, 'meta.json'))).get('detected')]
+elif args and args[0] == 'except':
+    skip = set(open(args[1]).read().split())
+    names = [n for n in names if n not in skip]
 elif args and args[0] != 'all':
     names = args
+import threading, itertools
+_ids = itertools.count()
+_tl = threading.local()
 def one(n):
+    # each worker thread gets its own copy of the build caches (no lock contention between parallel checks)
+    if not hasattr(_tl, 'cache'):
+        k = next(_ids)
+        _tl.cache = '/tmp/verif-sweep-cache-%d' % k
+        subprocess.run(['rsync', '-a', os.path.join(VERIF, '.cache') + '/', _tl.cache + '/'])
     pid = json.load(open(os.path.join(VERIF, 'seeded', n, 'meta.json')))['property']
     p = subprocess.run([sys.executable, os.path.join(VERIF, 'lib', 'seed_verify.py'), os.path.join(VERIF, 'seeded', n), pid, '--no-confirm'],
-                       capture_output=True, text=True)
+                       capture_output=True, text=True, env=dict(os.environ, VERIF_CACHE_DIR=_tl.cache))
     return n, p.stdout + p.stderr[-2000:]
 with ThreadPoolExecutor(max_workers=j) as ex:
     for n, out in ex.map(one, names):
